@@ -36,6 +36,7 @@ callers.
 #* "warning_cls_on_decorator_exception".
 
 # ....................{ IMPORTS                            }....................
+from beartype.roar import BeartypeConfParamException
 from beartype.roar._roarwarn import (
     _BeartypeConfReduceDecoratorExceptionToWarningDefault)
 from beartype._conf.confenum import (
@@ -930,8 +931,23 @@ class BeartypeConf(object):
             # parameters (e.g., the integer "1", which is equal to but *NOT* the
             # boolean "True") would otherwise be silently accepted whenever an
             # equal valid configuration had been previously instantiated.
-            if conf_args in _beartype_conf_args_to_conf:
-                return _beartype_conf_args_to_conf[conf_args]
+            #
+            # Note that this lookup hashes these parameters and thus raises the
+            # builtin "TypeError" exception if any parameter is unhashable.
+            # Parameters validated above are *NOT* necessarily hashable (e.g.,
+            # a list of package names passed as "claw_skip_package_names", a
+            # frozen dictionary of hint overrides mapping to an unhashable
+            # hint). Unhashable parameters are invalid and thus uniformly
+            # reported as such.
+            try:
+                if conf_args in _beartype_conf_args_to_conf:
+                    return _beartype_conf_args_to_conf[conf_args]
+            except TypeError as exception:
+                raise BeartypeConfParamException(
+                    f'Beartype configuration parameters unhashable '
+                    f'(i.e., one or more of {repr(conf_kwargs)} '
+                    f'neither immutable nor hashable).'
+                ) from exception
 
             # ..................{ INSTANTIATE                }..................
             # Instantiate a new configuration of this type.
